@@ -647,6 +647,64 @@ Qed.
 Lemma loop_witness_wf : flows_wf [0; 0; 0] loop_witness = true.
 Proof. vm_compute. reflexivity. Qed.
 
+(* The recursion depth is bounded by the size of the graph, not by a constant: for every stack
+   limit L there is a well-levelled flow graph (L+1 flows in sequence, e.g. sequential if
+   statements) on which resolution needs more than L frames (open findings F47 / F48). *)
+Definition chain (n : nat) : fgraph :=
+  map (fun i => {| own := []; parents := if Nat.eqb i 0 then [] else [PDirect (i - 1)]; outer := None |})
+      (seq 0 n).
+
+Lemma chain_nth n i : i < n ->
+  nth_error (chain n) i =
+  Some {| own := []; parents := if Nat.eqb i 0 then [] else [PDirect (i - 1)]; outer := None |}.
+Proof.
+  intros Hi. unfold chain. rewrite nth_error_map.
+  rewrite (nth_error_nth' (seq 0 n) 0) by (rewrite seq_length; exact Hi).
+  rewrite seq_nth by exact Hi. reflexivity.
+Qed.
+
+Lemma chain_needs_depth n b : forall f res i, i < n -> f <= i ->
+  names f b (chain n) res i = OutOfFuel.
+Proof.
+  induction f as [|f IH]; intros res i Hi Hf; [reflexivity|].
+  rewrite names_S. unfold names_step. rewrite (chain_nth n i Hi).
+  destruct i as [|i]; [lia|]. simpl parents. cbv iota. simpl mapM.
+  replace (S i - 1) with i by lia. rewrite IH by lia. reflexivity.
+Qed.
+
+Lemma forallb_i_map_seq {A} (f : nat -> A -> bool) (h : nat -> A) : forall m k,
+  (forall i, k <= i < k + m -> f i (h i) = true) -> forallb_i f k (map h (seq k m)) = true.
+Proof.
+  induction m as [|m IH]; intros k H; [reflexivity|].
+  simpl. rewrite H by lia. rewrite IH; [reflexivity|]. intros i Hi. apply H. lia.
+Qed.
+
+Lemma nth_repeat0 n j : nth j (repeat 0 n) 0 = 0.
+Proof. revert j. induction n as [|n IH]; intros [|j]; simpl; auto. Qed.
+
+Lemma chain_length n : length (chain n) = n.
+Proof. unfold chain. rewrite map_length, seq_length. reflexivity. Qed.
+
+Lemma chain_wf n : flows_wf (repeat 0 n) (chain n) = true.
+Proof.
+  unfold flows_wf. rewrite repeat_length, chain_length, Nat.eqb_refl, andb_true_r.
+  apply andb_true_iff. split.
+  - unfold chain at 2. apply forallb_i_map_seq. intros i Hi. unfold flow_wf_at. simpl outer.
+    rewrite andb_true_r. destruct i as [|i]; [reflexivity|].
+    simpl. rewrite !nth_repeat0, Nat.sub_0_r. simpl. rewrite andb_true_r, andb_true_r.
+    apply Nat.ltb_lt. lia.
+  - apply forallb_forall. intros x Hx. destruct n as [|n]; [destruct Hx|].
+    apply repeat_spec in Hx. subst x. reflexivity.
+Qed.
+
+Theorem depth_unbounded : forall L, exists g depth i,
+  flows_wf depth g = true /\ names L true g [] i = OutOfFuel.
+Proof.
+  intros L. exists (chain (S L)), (repeat 0 (S L)), L. split.
+  - apply chain_wf.
+  - apply chain_needs_depth; lia.
+Qed.
+
 (* ---------------------------------------------------------------------------------------- *)
 (* result shape                                                                              *)
 (* ---------------------------------------------------------------------------------------- *)
